@@ -1507,7 +1507,18 @@ class Srfi134(SeqLib):
     header = ("(define (%canon d) (ideque->list d))\n"
               "(define (%cut d) (let* ((l (ideque->list d)) (n (length l))) (if (> n 40) (list->ideque (list-tail l (- n 40))) d)))\n"
               ";; the length field is part of every observation of a deque\n"
-              "(define (%canon d) (let ((l (ideque->list d))) (if (= (length l) (ideque-length d)) l (cons -1000000 (cons (ideque-length d) l)))))\n")
+              ";; ... and so is the agreement of the end accessors with the list view: front, back, remove-front, remove-back\n"
+              "(define (%butlast l) (if (or (null? l) (null? (cdr l))) '() (cons (car l) (%butlast (cdr l)))))\n"
+              "(define (%last l) (if (null? (cdr l)) (car l) (%last (cdr l))))\n"
+              "(define (%canon d)\n"
+              "  (let ((l (ideque->list d)))\n"
+              "    (cond ((not (= (length l) (ideque-length d))) (cons -1000000 (cons (ideque-length d) l)))\n"
+              "          ((null? l) (if (ideque-empty? d) l (cons -2000000 l)))\n"
+              "          ((not (and (equal? (ideque-front d) (car l)) (equal? (ideque-back d) (%last l))\n"
+              "                     (equal? (ideque->list (ideque-remove-front d)) (cdr l))\n"
+              "                     (equal? (ideque->list (ideque-remove-back d)) (%butlast l))))\n"
+              "           (cons -2000000 (cons (ideque-front d) (cons (ideque-back d) l))))\n"
+              "          (else l))))\n")
     from_list = "(list->ideque %s)"
 
     def begin(self, h, rng):
